@@ -53,7 +53,9 @@ static bool same_context(who a, who b) { return a.task ? a.task == b.task : (!b.
 static char const* POOLS[] = {"default", "s", "t"};
 static std::atomic<int> g_runs{0};
 
-static void log_run(int exp, int hint, int prio, who const* submitter = nullptr)
+// id: which callable of the history this is (section * 100 + index; bulk elements add their index * 1000), so
+// that a dropped or repeated execution can be attributed
+static void log_run(int exp, int hint, int prio, who const* submitter = nullptr, int id = -1)
 {
     bool is_inline = submitter && same_context(me(), *submitter);
     bool pk = pika::threads::detail::get_self_ptr() != nullptr;
@@ -65,7 +67,7 @@ static void log_run(int exp, int hint, int prio, who const* submitter = nullptr)
         pool = p ? p->get_pool_name().c_str() : "none";
         w = (long) pika::get_local_worker_thread_num();
     }
-    ev("run").s("exp", POOLS[exp]).s("pool", pool).i("w", w).i("tid", my_tid()).i("pika", pk).i("inline", is_inline).i("hint", hint).i("prio", prio).done();
+    ev("run").s("exp", POOLS[exp]).s("pool", pool).i("w", w).i("tid", my_tid()).i("pika", pk).i("inline", is_inline).i("hint", hint).i("prio", prio).i("id", id).done();
     ++g_runs;
 }
 
@@ -116,13 +118,13 @@ int main(int argc, char** argv)
             ex::unique_any_sender<> s;
             // `last` = context in which the previous stage ran (initially: the submitter)
             auto last = std::make_shared<who>(me());
-            auto stage = [last](int pool) {
+            auto stage = [last](int pool, int id) {
                 who prev = *last;
-                log_run(pool, -1, 0, &prev);
+                log_run(pool, -1, 0, &prev, id);
                 *last = me();
             };
-            if (R.chance(1, 3)) s = ex::transfer_just(sch[p]) | ex::then([stage, p] { stage(p); });
-            else s = ex::schedule(sch[p]) | ex::then([stage, p] { stage(p); });
+            if (R.chance(1, 3)) s = ex::transfer_just(sch[p]) | ex::then([stage, p] { stage(p, 100); });
+            else s = ex::schedule(sch[p]) | ex::then([stage, p] { stage(p, 100); });
             ++expected_runs;
             for (int i = 1; i < nst; ++i)
             {
@@ -131,15 +133,15 @@ int main(int argc, char** argv)
                 if (k == 0)
                 {
                     int n = 1 + (int) R.below(6);
-                    s = std::move(s) | ex::continues_on(sch[q]) | ex::bulk(n, [q, last](int) {
-                        log_run(q, -1, 0);
+                    s = std::move(s) | ex::continues_on(sch[q]) | ex::bulk(n, [q, last, i](int k) {
+                        log_run(q, -1, 0, nullptr, 100 + i + 1000 * (k + 1));
                         *last = who{0, -1};    // (after a bulk the completing context is one of the chunk tasks)
                     });
                     expected_runs += n;
                 }
                 else
                 {
-                    s = std::move(s) | ex::continues_on(sch[q]) | ex::then([stage, q] { stage(q); });
+                    s = std::move(s) | ex::continues_on(sch[q]) | ex::then([stage, q, i] { stage(q, 100 + i); });
                     ++expected_runs;
                 }
             }
@@ -155,7 +157,7 @@ int main(int argc, char** argv)
             {
                 who sub = me();
                 ex::execute(sch[p], [&, p, sub] {
-                    log_run(p, -1, 0, &sub);
+                    log_run(p, -1, 0, &sub, 190);
                     pipeline(true);
                     fin = 1;
                 });
@@ -170,10 +172,10 @@ int main(int argc, char** argv)
             {
                 who sub = me();
                 ex::execute(sch[p], [&, p, sub] {
-                    log_run(p, -1, 0, &sub);
+                    log_run(p, -1, 0, &sub, 201);
                     who sub2 = me();
                     ex::execute(sch[p], [&, p, sub2] {
-                        log_run(p, -1, 0, &sub2);
+                        log_run(p, -1, 0, &sub2, 202);
                         fin = 1;
                     });
                 });
@@ -210,7 +212,7 @@ int main(int argc, char** argv)
                 who sub = me();
                 int spin_us = 200 + (int) R.below(400);
                 ex::execute(sb, [&, busy_hint, sub, spin_us] {
-                    log_run(1, busy_hint, 0, &sub);
+                    log_run(1, busy_hint, 0, &sub, 399);
                     auto t = clk::now() + std::chrono::microseconds(spin_us);
                     while (clk::now() < t) {}
                     ++fin;
@@ -234,10 +236,10 @@ int main(int argc, char** argv)
                 who sub = me();
                 auto* sem = sems[i].get();
                 auto* ab = about[i].get();
-                ex::execute(s2, [&, p, hint, prio, phases, sub, blocking, sem, ab] {
+                ex::execute(s2, [&, i, p, hint, prio, phases, sub, blocking, sem, ab] {
                     for (int ph = 0; ph < phases; ++ph)
                     {
-                        log_run(p, hint, prio, &sub);
+                        log_run(p, hint, prio, &sub, 300 + i + 1000 * ph);
                         if (ph + 1 < phases)
                         {
                             if (blocking)
